@@ -256,8 +256,12 @@ func judgeObligations(m *Model, seqs map[seqKey][]*Attempt, sendResolvedOf func(
 				if v.Gone {
 					continue
 				}
+				// the resolution instant: the end time, or the submission instant for an explicit end in the past
 				r := v.End
-				if cur := m.Alerts.LastKnown(mk, r); cur == nil || !cur.End.Equal(r) {
+				if v.From.After(r) {
+					r = v.From
+				}
+				if cur := m.Alerts.LastKnown(mk, r); cur == nil || !cur.End.Equal(v.End) {
 					continue // superseded before it ended
 				}
 				cands := []time.Time{r}
